@@ -247,7 +247,7 @@ func emitProteinTables(repo, out string) {
 
 	var w strings.Builder
 	w.WriteString("-- GENERATED by tools/extract (protein_tables.go, tie T1) from the repository working tree. Do not edit.\n")
-	w.WriteString("/-! What `models/protein/matrices.go` returns: 20×20 exchangeabilities (row-major) and 20 frequencies\nper model, as exact (numerator, denominator) pairs; and the dispatch of `NewProtModel`. -/\n")
+	w.WriteString("/-! What `models/protein/matrices.go` returns: 20×20 exchangeabilities (row-major) and 20 frequencies\nper model (20 rows of 20), as exact (numerator, denominator) pairs; and the dispatch of `NewProtModel`. -/\n")
 	w.WriteString("namespace Gv.Gen.Protein\n\n")
 	done := map[string]bool{}
 	for _, d := range ds {
@@ -257,11 +257,19 @@ func emitProteinTables(repo, out string) {
 		done[d.fn] = true
 		f := findFunc(mf, "", d.fn)
 		tb := execMats(f)
-		fmt.Fprintf(&w, "def %s_m : List (Nat × Nat) := %s\n\n", d.fn, ratPairs(f, tb.m, 10))
+		fmt.Fprintf(&w, "def %s_m : List (List (Nat × Nat)) := [\n", d.fn)
+		for i := 0; i < 20; i++ {
+			sep := ","
+			if i == 19 {
+				sep = ""
+			}
+			fmt.Fprintf(&w, "%s%s\n", ratPairs(f, tb.m[i*20:(i+1)*20], 10), sep)
+		}
+		w.WriteString("]\n\n")
 		fmt.Fprintf(&w, "def %s_pi : List (Nat × Nat) := %s\n\n", d.fn, ratPairs(f, tb.pi, 10))
 	}
 	w.WriteString("/-- `NewProtModel(model, …)`: exchangeabilities and frequencies selected by the model constant -/\n")
-	w.WriteString("def table : Nat → Option (List (Nat × Nat) × List (Nat × Nat))\n")
+	w.WriteString("def table : Nat → Option (List (List (Nat × Nat)) × List (Nat × Nat))\n")
 	for _, d := range ds {
 		fmt.Fprintf(&w, "  | %d => some (%s_m, %s_pi)\n", d.idx, d.fn, d.fn)
 	}
